@@ -280,6 +280,83 @@ def idxWithAttrValues (i : Idx) (doc : Node) (a : Str) (vs : List Str) (arg : Op
     if isRoot then elements else TC.ofList (elements.items.filter (fun x => hasTagInParentLine doc x.uid r))
   | none => withAttrValues a vs (.parser doc arg)
 
+/-! ### the `useIndex=False` leg as the code has it
+
+  `IndexedAdvancedHTMLParser.getElementsByX(…, useIndex=False)` calls `AdvancedHTMLParser.getElementsByX(self, …)`.
+  The base-class method tests the root, then loops `for child in root.children: test child; elements +=
+  self.getElementsByX(q, child)` — and `self.getElementsByX` is the *override*, with its default `useIndex=True`:
+  the recursion re-enters the indexed method for every child (`root=child`, never the document root).  With the
+  index switched on the re-entered call answers from the map restricted to the child's subtree; with it switched
+  off the override falls through to the base class again, one level down.  `reenter` / `reenterL` are that
+  recursion; `idx…` above keep the plain scan on this leg (what the driver executes), the functions below are the
+  code's, and `Props/C07.lean` (`*_fallback`) proves the two equal whenever the index mirrors the document.
+  `getElementsWithAttrValues` does not re-enter (the base class delegates to the element form): nothing to add. -/
+
+mutual
+/-- `self.getElementsByX(q, child)` as re-entered from the base-class loop: `useIdx` = the index flag of the
+    override, `indexed child` = what the override's index branch lists for `root=child` before
+    `TagCollection(...)`, `pred` = the child test of the base-class loop. -/
+def reenter (useIdx : Bool) (indexed : Node → List Node) (pred : Elem → Bool) : Node → TC
+  | .mk e ks => if useIdx then TC.ofList (indexed (.mk e ks)) else TC.ofList (reenterL useIdx indexed pred ks)
+def reenterL (useIdx : Bool) (indexed : Node → List Node) (pred : Elem → Bool) : List Node → List Node
+  | [] => []
+  | k :: ks => (if pred k.elem then [k] else []) ++ (reenter useIdx indexed pred k).items ++ reenterL useIdx indexed pred ks
+end
+
+/-- the base-class method entered with `useIndex=False`: root test, then the re-entering loop -/
+def scanFB (useIdx : Bool) (indexed : Node → List Node) (rootPred pred : Elem → Bool) (isRoot : Bool) (r : Node) : TC :=
+  TC.ofList ((if isRoot && rootPred r.elem then [r] else []) ++ reenterL useIdx indexed pred r.kids)
+
+def idxByTagNameFB (i : Idx) (doc : Node) (q : Str) (arg : Option Node) : TC :=
+  let (r, isRoot) := handleRootArg doc arg
+  scanFB i.indexTagNames (fun k => restrict doc false k (resolve doc (assocGet i.tagNameMap q))) (pTag q) (pTag q) isRoot r
+
+def idxByNameFB (i : Idx) (doc : Node) (q : Str) (arg : Option Node) : TC :=
+  let (r, isRoot) := handleRootArg doc arg
+  scanFB i.indexNames (fun k => restrict doc false k (resolve doc (assocGet i.nameMap q)))
+    (pDot (str "name") q) (pAttr (str "name") q) isRoot r
+
+/-- the attribute index is used by the re-entered call exactly when the attribute is indexed -/
+def idxByAttrFB (i : Idx) (doc : Node) (a v : Str) (arg : Option Node) : TC :=
+  let (r, isRoot) := handleRootArg doc arg
+  scanFB (i.other.lookup a).isSome
+    (fun k => restrict doc false k (resolve doc (assocGet ((i.other.lookup a).getD []) v))) (pAttr a v) (pAttr a v) isRoot r
+
+/-- `getElementsByClassName(…, useIndex=False)`: the base class scans for the FIRST name (re-entering the override
+    with that single name), then filters by the remaining names -/
+def idxByClassNameFB (i : Idx) (doc : Node) (q : Str) (arg : Option Node) : Option TC :=
+  let (r, isRoot) := handleRootArg doc arg
+  match classWords q with
+  | [] => none
+  | c :: rest =>
+    let elements := (if isRoot && pClass c r.elem then [r] else []) ++
+      reenterL i.indexClassNames (fun k => restrict doc false k (resolve doc (assocGet i.classNameMap c))) (pClass c) r.kids
+    some (TC.ofList (if rest.isEmpty then elements else elements.filter (fun n => pAllClasses rest n.elem)))
+
+mutual
+/-- `self.getElementById(q, child)` as re-entered from the base-class loop -/
+def reenterFirst (useIdx : Bool) (indexed : Node → Option Node) (pred : Elem → Bool) : Node → Option Node
+  | .mk e ks => if useIdx then indexed (.mk e ks) else reenterFirstL useIdx indexed pred ks
+def reenterFirstL (useIdx : Bool) (indexed : Node → Option Node) (pred : Elem → Bool) : List Node → Option Node
+  | [] => none
+  | k :: ks =>
+    if pred k.elem then some k
+    else match reenterFirst useIdx indexed pred k with
+      | some r => some r
+      | none => reenterFirstL useIdx indexed pred ks
+end
+
+/-- the index branch of the override's `getElementById(q, root=k)` for a non-root `k` -/
+def idIndexedAt (i : Idx) (doc : Node) (q : Str) (k : Node) : Option Node :=
+  match (i.idMap.lookup q).bind doc.find? with
+  | none => none
+  | some el => if !(hasTagInParentLine doc el.uid k) then none else some el
+
+def idxByIdFB (i : Idx) (doc : Node) (q : Str) (arg : Option Node) : Option Node :=
+  let (r, isRoot) := handleRootArg doc arg
+  if isRoot && pDot (str "id") q r.elem then some r
+  else reenterFirstL i.indexIDs (idIndexedAt i doc q) (pAttr (str "id") q) r.kids
+
 /-! ### DOM edits (the index is not told) -/
 
 mutual
